@@ -33,6 +33,7 @@ fn main() {
         usage();
     }
     let sub = args[1].as_str();
+    util::install_quiet_panic_hook();
     if sub == "info" {
         println!("{}", serde_json::json!({"dw_src": DW_SRC, "overflow_checks": util::overflow_checks_on(), "debug_assertions": cfg!(debug_assertions)}));
         return;
@@ -59,7 +60,6 @@ fn main() {
         }
     }
     let (Some(inp), Some(out)) = (inp, out) else { usage() };
-    util::install_quiet_panic_hook();
     let rd = BufReader::new(std::fs::File::open(&inp).unwrap_or_else(|e| {
         eprintln!("dwpure: cannot open {}: {}", inp, e);
         std::process::exit(2)
